@@ -804,6 +804,7 @@ fn analyze(tcx: TyCtxt<'_>) -> ControlFlow<()> {
         if let Some(ldid) = did.as_local() {
             if !is_closure && matches!(tcx.def_kind(did), rustc_hir::def::DefKind::Fn | rustc_hir::def::DefKind::AssocFn) {
                 extra.push(("exported", J::Bool(eff.is_reachable(ldid))));
+                extra.push(("nameable", J::Bool(eff.is_exported(ldid))));
                 extra.push(("vis", s(format!("{:?}", tcx.visibility(did)))));
                 // parent impl (for methods): trait + self type
                 if let Some(impl_did) = tcx.impl_of_assoc(did) {
